@@ -56,6 +56,10 @@ func (ex *Exec) axioms(cone []*Term) []*Term {
 		case "uf:strlen":
 			// bound: atom-mode strings are at most 1 MiB long (stated bound; the log format itself caps lines at 10 MiB)
 			out = append(out, BVCmp("bvsle", BVC(0, 64), t), BVCmp("bvsle", t, BVC(1<<20, 64)), Eq(Eq(t, BVC(0, 64)), Eq(t.args[0], IntC(0))))
+			// a text equal to a program literal is as long as that literal
+			for _, l := range coneLits {
+				out = append(out, Implies(Eq(t.args[0], IntC(Lits.Code(l))), Eq(t, BVC(int64(len(l)), 64))))
+			}
 		case "uf:timefmt":
 			out = append(out, ILt(IntC(0), t))
 			fmts = append(fmts, t)
@@ -81,12 +85,12 @@ func (ex *Exec) axioms(cone []*Term) []*Term {
 			for _, l := range append([]string(nil), Lits.sorted...) {
 				out = append(out, Implies(Eq(t.args[0], IntC(Lits.Code(l))), BoolC(filepath.IsAbs(l)).eqTerm(t)))
 			}
-		case "uf:hasprefix", "uf:hassuffix", "uf:contains":
+		case "uf:hasprefix", "uf:hassuffix", "uf:contains", "uf:containsany":
 			if len(t.args) == 2 && t.args[1].IsConst() {
 				pat, ok := Lits.byCode[t.args[1].ival.Int64()]
 				if ok {
-					f := map[string]func(string, string) bool{"uf:hasprefix": strings.HasPrefix, "uf:hassuffix": strings.HasSuffix, "uf:contains": strings.Contains}[t.op]
-					for _, l := range append([]string(nil), Lits.sorted...) {
+					f := map[string]func(string, string) bool{"uf:hasprefix": strings.HasPrefix, "uf:hassuffix": strings.HasSuffix, "uf:contains": strings.Contains, "uf:containsany": strings.ContainsAny}[t.op]
+					for _, l := range coneLits {
 						out = append(out, Implies(Eq(t.args[0], IntC(Lits.Code(l))), BoolC(f(l, pat)).eqTerm(t)))
 					}
 				}
